@@ -806,8 +806,8 @@ class TrustRegion:
         """
         # Evaluate the linearizations of the constraints.
         aub, bub, aeq, beq = self.get_constraint_linearizations(self.x_best)
-        xl = self._pb.bounds.xl - self.x_best
-        xu = self._pb.bounds.xu - self.x_best
+        xl = self._pb.bounds.xl - self.x_best - step
+        xu = self._pb.bounds.xu - self.x_best - step
         radius = np.linalg.norm(step)
         soc_step = normal_byrd_omojokun(
             aub,
